@@ -30,7 +30,7 @@ def save_cfg(max_prob, min_prob=0.0):
     c2 = configparser.ConfigParser(); c2.read_string(buf.getvalue())
     return c2
 
-def judge(run, case, U, runs, saved, where):
+def judge(run, case, U, runs, saved, where, mech=None):
     """U: list of (key, prob) of the uninterrupted run.  runs: list of POP lists [(key, prob)], run i>0 resumed from saved[i-1]=P(X).
     Emitted of a run that ended by quit = all but its last pop (popped, saved, not generated)."""
     emitted_all = Counter()
@@ -39,12 +39,12 @@ def judge(run, case, U, runs, saved, where):
     for i, (r, quit_) in enumerate(runs):
         probs = [p for k, p in r]
         if any(b > a for a, b in zip(probs, probs[1:])):
-            run.violation(f'{where}: run {i} is not in non-increasing probability order', case, observed=[repr(p) for p in probs[:12]]); ok = False
+            run.violation(f'{where}: run {i} is not in non-increasing probability order', case, observed=[repr(p) for p in probs[:12]], mech=mech); ok = False
         if i > 0:
             px = saved[i - 1]
             if probs and max(probs) > px:
                 run.violation(f'{where}: resumed run {i} emitted a pre-terminal more probable ({max(probs)!r}) than the saved position ({px!r})', case,
-                              observed=[[k, repr(p)] for k, p in r[:5]]); ok = False
+                              observed=[[k, repr(p)] for k, p in r[:5]], mech=mech); ok = False
         em = r[:-1] if quit_ else r
         for k, p in em:
             emitted_all[k] += 1
@@ -52,15 +52,15 @@ def judge(run, case, U, runs, saved, where):
                 # a repeat: allowed only if its probability equals the saved position this run resumed from
                 if i == 0 or p != saved[i - 1]:
                     run.violation(f'{where}: pre-terminal {k} (prob {p!r}) emitted again in run {i} although its probability differs from the saved position '
-                                  f'{saved[i - 1] if i else None!r}', case, observed={'saved_positions': [repr(s) for s in saved]}); ok = False
+                                  f'{saved[i - 1] if i else None!r}', case, observed={'saved_positions': [repr(s) for s in saved]}, mech=mech); ok = False
                     return ok
     lost = budget - emitted_all
     if lost:
         run.violation(f'{where}: {sum(lost.values())} pre-terminal(s) of the uninterrupted run never emitted by the interrupted history', case,
-                      observed=sorted(lost)[:5]); ok = False
+                      observed=sorted(lost)[:5], mech=mech); ok = False
     foreign = [k for k in emitted_all if k not in budget]
     if foreign:
-        run.violation(f'{where}: history emitted pre-terminals the uninterrupted run never does', case, observed=foreign[:5]); ok = False
+        run.violation(f'{where}: history emitted pre-terminals the uninterrupted run never does', case, observed=foreign[:5], mech=mech); ok = False
     return ok
 
 def check_case(run, case, tier='quick'):
@@ -182,11 +182,7 @@ def run(run, rng):
                        'the restore path is driven with the same two numbers the real _save_session writes (checked against the .sav in the main() histories)']
     for i in range(N[run.tier]):
         case = gen_case(rng)
-        try:
-            with timebox(120):
-                check_case(run, case, run.tier)
-        except CaseTimeout:
-            run.inconc('case watchdog')
+        run.guard(case, check_case, run.tier, seconds=120)
 
 def replay(run, case):
     check_case(run, case['case'], 'thorough')
